@@ -923,6 +923,8 @@ class Engine:
         end_time = self.global_time + interval
         emit_time = self.global_time + self.emit_step
         if self.global_time_precision is not None:
+            # keep the end and emit times on the precision grid
+            end_time = round(end_time, self.global_time_precision)
             emit_time = round(emit_time, self.global_time_precision)
 
         while self.global_time < end_time or force_complete:
@@ -1001,6 +1003,10 @@ class Engine:
                 # at least one process ran within the interval
                 # increase the time, apply updates, and continue
                 self.global_time += full_step
+                if self.global_time_precision is not None:
+                    # land exactly on the (rounded) event time
+                    self.global_time = round(
+                        self.global_time, self.global_time_precision)
 
                 # advance all quiet processes to current time
                 for quiet in quiet_paths:
